@@ -23,6 +23,7 @@ PLAN = {
                    "paths are enumerated exhaustively.",
         level_note="Trusts harness/ref/match.go as the reading of the documented priority rules; requests on which three readings of an "
                    "undocumented corner (catch-all value starting with '/') disagree are not judged and are counted.",
+        level_more='Later additions (seeding rounds 12-21): request targets with raw bytes, wide nodes (more than 50 children), patterns sharing 31-100 leading bytes, literal closing braces in static text, and a second router whose routes are partly committed and partly held in an open write transaction.',
         rule="cases: (route set, request) pairs; non-trivial = the reference backtracked at least once, or a wildcard captured a value, or "
              "hostname routes were tried before falling back to path-only routes; distinct by (method, sorted patterns, host, path)",
         assumptions=["reference matcher encodes the documented rules", "request paths have no empty segments; Host values are well formed"],
@@ -101,6 +102,7 @@ PLAN = {
                    "(all methods incl. OPTIONS, hosts, slash-toggled paths) with the same Lookup route/params/tsr, status, handler, Location and Allow set. "
                    "Sets of 2-5 routes are additionally inserted in every permutation.",
         level_note="No reference needed; the history engine's model is only used to know the surviving set. Equality of outcomes is judged on sampled probes derived from every pattern used in the history.",
+        level_more='Later additions: a wide family (51-53 static siblings, then wildcard edges), a second uncommon verb and a verb family whose oldest verb is emptied again.',
         rule="cases: (options, history, insertion order, probes); counted evaluations are probes; non-trivial = the history deleted a key sharing a >=2-byte prefix "
              "with a surviving key of the same method (a node merge), or a permutation case; distinct by options+history+order or options+set",
         assumptions=["both routers are given identical options per surviving route"],
@@ -120,6 +122,7 @@ PLAN = {
                    "served / redirected / unmatched; the Location header is parsed and resolved like a client would. Small pools are enumerated exhaustively (thorough tier: also pairs of "
                    "three-segment patterns with adjacent and mid-segment catch-alls against every path over {/ a} up to length 10 - the shape class of repaired defect H).",
         level_note="Trusts the reference matcher and net/url's reference resolution; ambiguity (catch-all value starting with '/') is counted and not judged.",
+        level_more="Later additions: raw non-ASCII queries, route sets registered in one transaction with tolerated refusals, and for every request the iterator's reverse look-up over all methods at once compared with Reverse method by method.",
         rule="cases: (options, route set, request target); non-trivial = the reference prescribes a trailing-slash action and the method has "
              ">= 2 routes; distinct by (options, method, sorted patterns, host, target)",
         assumptions=["routing path = URL.RawPath when present, URL.Path otherwise (documented in fox)", "no empty path segments"],
@@ -141,6 +144,7 @@ PLAN = {
                    "extend / truncate / neighbour a registered hostname, are IP literals or empty; the reference requires label-for-label equality "
                    "after stripping and decides when the path-only fallback applies. All hosts over {a b .} up to a bound are enumerated against all pattern pairs.",
         level_note="Well-formed Host values only (malformed host:port is documented as 'unchanged'); arbitrary strings are used only in the metamorphic relation.",
+        level_more='Later additions: method roots with more than fifty children (hostnames differing in their first byte), request hosts longer than 255 bytes, hostnames sharing 31-100 bytes, registration through transactions and detours, and Iter.Reverse over all methods compared with Reverse method by method.',
         rule="cases: (route set, request); non-trivial = the Host extends, truncates, contains or neighbours a registered hostname, or a hostname route was selected; distinct by (method, sorted patterns, host, path)",
         assumptions=["reference matcher + StripHost (port and one trailing dot) encode the documented rules"],
         quick=[REPLAY,
@@ -159,6 +163,7 @@ PLAN = {
                    "arbitrary bytes are submitted to NewRoute/Handle/Delete and to a reference recogniser; each accepted pattern is "
                    "registered alone and its generated instantiations must be routed back to it with parameters that reproduce the request.",
         level_note="Trusts harness/ref/grammar.go as the documented grammar; '_' in host labels (documentation and parser disagree, property silent) is not judged and counted.",
+        level_more="Later additions: limits given twice, every valid pattern also registered through NewRoute + HandleRoute + UpdateRoute and twice in one transaction under a new verb, wildcard chains, an adjacency family around the two-catch-all rule, and the iterator's reverse look-up on the single registered route.",
         rule="cases: (string, parameter limits) for the grammar half, (accepted pattern, wildcard values) for the round trip; non-trivial = the string "
              "contains a wildcard opener or a hostname / the pattern has at least one wildcard; distinct by limits+string or pattern+values",
         assumptions=["reference grammar = documented grammar", "round-trip values: no '/' in parameter values, no '.' in host values, catch-all values without empty segments"],
@@ -180,6 +185,7 @@ PLAN = {
         level_note="CONNECT routes are kept out (whether a CONNECT route reachable only by ignoring a trailing slash 'serves' is not settled); with both options on, "
                    "OPTIONS is required in the 405 Allow set (the policy fox pins in its own tests; a router that never added it would fail fox's suite first); "
                    "OPTIONS * with only OPTIONS routes is not judged.",
+        level_more="Later additions: fox's own 405 and OPTIONS handlers left in place (observed by a middleware), request header fields (CORS pre-flight and others), preset Allow values, NoMethod switched off again, one-transaction registration, and Iter.Reverse(Iter.Methods()) compared with Reverse per method.",
         rule="cases: (options, route set, request); non-trivial = a 405/OPTIONS answer where >= 2 methods serve the probe or a route contributes by ignoring a trailing slash; distinct by (options, routes, request)",
         assumptions=["reference matcher", "Allow is compared as a set"],
         quick=[REPLAY,
